@@ -38,6 +38,20 @@ def consts():
     return _CONSTS
 
 
+def augment(lines, impl_out):
+    """`vs poll` lines get `a=<v1,v2,...>`: the values the real congestion controller returned during that
+    poll (window / sshthresh / smss reads), in call order, which the model adopts (adopt-and-compare)."""
+    res = []
+    for l, o in zip(lines, impl_out):
+        if l.startswith("vs poll") and "cc=[" in o:
+            cc = o.split("cc=[", 1)[1].split("]", 1)[0]
+            vals = [x.split("=")[1] for x in cc.split(",") if x.startswith(("window=", "sshthresh=", "smss="))]
+            res.append("vs poll a=" + ",".join(vals) if vals else "vs poll")
+        else:
+            res.append(l)
+    return res
+
+
 def rng_for(seed, comp):
     return random.Random(f"{seed}/{comp}")
 
@@ -46,7 +60,7 @@ def scale(tier, quick, thorough):
     return thorough if tier == "thorough" else quick
 
 
-from gens import pure, wire, mtu, txring, rx, segs  # noqa: E402,F401  (registers generators / oracles)
+from gens import pure, wire, mtu, txring, rx, segs, vsock  # noqa: E402,F401  (registers generators / oracles)
 
 pure.register(sys.modules[__name__])
 wire.register(sys.modules[__name__])
@@ -54,3 +68,4 @@ mtu.register(sys.modules[__name__])
 txring.register(sys.modules[__name__])
 rx.register(sys.modules[__name__])
 segs.register(sys.modules[__name__])
+vsock.register(sys.modules[__name__])
